@@ -141,6 +141,7 @@ type server struct {
 	errC                chan error
 	connMutex           sync.RWMutex
 	addr                *net.TCPAddr
+	addrMutex           sync.RWMutex
 	httpHandler         *mux.Router
 }
 
@@ -243,6 +244,8 @@ func (s *server) Errors() <-chan error {
 }
 
 func (s *server) Addr() *net.TCPAddr {
+	s.addrMutex.RLock()
+	defer s.addrMutex.RUnlock()
 	return s.addr
 }
 
@@ -273,7 +276,9 @@ func (s *server) Start(port int, listenPath string) {
 		return
 	}
 
+	s.addrMutex.Lock()
 	s.addr = ln.Addr().(*net.TCPAddr)
+	s.addrMutex.Unlock()
 
 	defer ln.Close()
 
